@@ -1043,7 +1043,11 @@ class ApertureStats:
         The centroid is computed as the center of mass of the unmasked
         pixels within the aperture.
         """
-        origin = np.transpose((self.bbox_xmin, self.bbox_ymin))
+        # the cutouts start at the origin of the overlap of the bounding
+        # box with the data, which is (0, 0) for apertures extending
+        # beyond the left or bottom edge of the data
+        origin = np.transpose((np.maximum(self.bbox_xmin, 0),
+                               np.maximum(self.bbox_ymin, 0)))
         return self.cutout_centroid + origin
 
     @lazyproperty
